@@ -169,6 +169,8 @@ def run(tier, seed, model):
                                  "viewer_bytes": len(p.to_server()), "server_bytes": len(p.to_viewer()), "server": dict(srv.notes)})
     multi_session(camp, rng, 12 if tier == "quick" else 200)
     if model is not None:
+        theorem_samples(camp, model, rng, 40 if tier == "quick" else 1500)
+    if model is not None:
         for ans, (kind, i, extra) in zip(model.call_many(reqs), meta):
             if kind == "viewer":
                 bad = [ch for ch in ans[0] if ch[0] != 0]
@@ -194,6 +196,66 @@ def run(tier, seed, model):
                  "the bytes sent so far and nothing may raise; plus multi-connection runs on one factory (shared file, stdout-like "
                  "stream, per-connection files); parser and logging client compared with the Coq models; non-trivial = session")
     return camp
+
+
+def theorem_samples(camp, model, rng, n):
+    """the statement of C16_viewer_bytes_relayed sampled against the implementation: viewer sessions from the theorem's
+    domain (vmsg with vwf), bytes from the extracted Coq spec (vwire), fed to the REAL proxy in random chunks"""
+    names = [k for k in lp.REVERSE_MAP]
+
+    def keysym():
+        return rng.choice([rng.randrange(1, 127), rng.randrange(0xA0, 0xD800), rng.randrange(0xE000, 0x110000), rng.choice(names)])
+
+    def gen():
+        msgs = []
+        for _ in range(rng.randrange(1, 25)):
+            k = rng.randrange(7)
+            if k == 0:
+                msgs.append([0, [rng.getrandbits(8) for _ in range(19)]])
+            elif k == 1:
+                msgs.append([1, rng.getrandbits(8), [[rng.getrandbits(8) for _ in range(4)] for _ in range(rng.choice([0, 1, 3, 40]))]])
+            elif k == 2:
+                msgs.append([2, [rng.getrandbits(8) for _ in range(9)]])
+            elif k == 3:
+                msgs.append([3, rng.choice([0, 1, 255]), keysym()])
+            elif k == 4:
+                msgs.append([4, rng.getrandbits(8), rng.choice([0, 65535, rng.getrandbits(16)]), rng.getrandbits(16)])
+            elif k == 5:
+                msgs.append([5, [rng.getrandbits(8) for _ in range(3)], [rng.getrandbits(8) for _ in range(rng.choice([0, 1, 20, 700]))]])
+            else:
+                msgs.append([6, rng.choice([0, 1, 65535]), keysym(), [rng.getrandbits(8) for _ in range(4)]])
+        return msgs
+    cases = [gen() for _ in range(n)]
+    answers = model.call_many([("spec_viewer", m) for m in cases])
+    for msgs, ans in zip(cases, answers):
+        wire = bytes(ans[0])
+        version = rng.choice([b"003.003", b"003.007", b"003.008"])
+        hs = b"".join(viewer_handshake(version))
+        p = Proxy(password_required=False)
+        camp.evaluations += 1
+        camp.count("theorem-sample")
+        camp.nontrivial.add(("thm", len(wire), wire[:24]))
+        err = p.from_viewer(hs)
+        data = wire
+        sent = hs
+        pieces = cut(data, rng, 8) if data else []
+        why = None if err is None else f"handshake raised {err!r}"
+        for c in pieces:
+            if why:
+                break
+            # the arrival time moves on between chunks
+            p.clock.now += rng.choice([0, 0.0001, 0.3, 12.5])
+            err = p.from_viewer(c)
+            sent += c
+            if err is not None:
+                why = f"a chunk raised {type(err).__name__}: {str(err)[:80]}"
+            elif p.to_server() != sent:
+                why = f"after {len(sent)} bytes the server had received {len(p.to_server())} (not exactly the viewer's bytes)"
+        if why:
+            camp.oracle_failures.append({"kind": "oracle", "property": "C16",
+                                         "case": {"spec": "viewer_bytes_relayed", "msgs": msgs, "version": version.decode()},
+                                         "what": f"a viewer session written as the C16 theorem says (kinds {[m[0] for m in msgs][:12]}): {why}"})
+            return
 
 
 def multi_session(camp, rng, rounds):
